@@ -3,6 +3,7 @@
 from urllib.parse import urlsplit, unquote_to_bytes
 
 import lib
+import punylaws
 
 
 def clean_impl(url, default_protocol):
@@ -58,15 +59,9 @@ def parse_canon(cleaned):
 
 
 def puny_table(hostname):
-    from ural.utils import attempt_to_decode_idna
-
-    t = {}
-    if hostname:
-        for part in hostname.split("."):
-            h = part[:4].lower()
-            if h == "xn--":
-                t[h + part[4:]] = attempt_to_decode_idna(h + part[4:])
-    return t
+    """the answers of the real label decoder (the model's parameter `puny`) for the `xn--`
+    labels of the host: harness/punylaws.py"""
+    return punylaws.table(hostname)
 
 
 def ops(url, quoted, strip_fragment, default_protocol="https"):
@@ -123,17 +118,12 @@ def pct(s):
 
 
 def host_key(h):
-    if not h:
-        return ""
-    out = []
-    for part in h.split("."):
-        if part[:4].lower() == "xn--":
-            try:
-                part = part.lower().encode("utf8").decode("idna")
-            except UnicodeError:
-                pass
-        out.append(part.lower())
-    return ".".join(out)
+    """the host up to letter case and IDNA spelling: label by label the ASCII-compatible (ACE)
+    spelling, lower-cased (ToASCII of the reference encoder; Lean: hostKey ace).  The reading
+    that demands less: two Unicode spellings of one name (say a fullwidth and a plain letter)
+    have the same key, an ACE label and what a decoder WITHOUT round-trip check makes of it
+    (xn--caf-pia -> 'cafÉ' = xn--caf-dma) have not."""
+    return punylaws.ace_key(h)
 
 
 def resolve_segments(path):
